@@ -110,7 +110,7 @@ impl<'a> Interp<'a> {
         } else {
             ns.react.get(kind as usize).cloned().unwrap_or_default()
         };
-        let cuid = ctx_uid(uid, self.now);
+        let cuid = ctx_uid(uid, self.now, node);
         for (i, a) in actions.iter().enumerate() {
             self.exec(node, uid, cuid, ttl, i, a);
         }
